@@ -7,7 +7,7 @@ use crate::values::{self, case_size};
 use serde_json::Value;
 use unic_locale::{LanguageIdentifier, Locale};
 
-pub const RULE: &str = "Domain: reachable values (G8): Locales parsed from every accepted input of an exhaustive token space ('en-' + 27-token locale alphabet to 3 | 4 subtags, 'en-' + 12-token core alphabet to 5 | 6), from proptest well-formed locales with case/separator masks and from CLDR names with extension suffixes; Locale::from_parts over valid subtags with permuted / duplicated / upper-case variants and a parsed extension string; end states of mutation histories (all 1-2 | 1-3 operation sequences over the 30-operation alphabet from two starts, and random histories of length 0-40). Oracle: to_string() == canonical rendering of what the getters expose (independent canonicaliser); to_string() passes the strict canonical recogniser; for parsed inputs canonicalize(s) == canon(reference model of s) == parse(s).to_string() and is never longer than s. Non-trivial = value has >= 2 variants or an extension, or was produced by from_parts / a mutation history. Enumerated inputs distinct by construction, the rest counted through a hash set of the case.";
+pub const RULE: &str = "Domain: reachable values (G8): Locales parsed from every accepted input of an exhaustive token space ('en-' + 27-token locale alphabet to 3 | 4 subtags, 'en-' + 12-token core alphabet to 5 | 6), from proptest well-formed locales with case/separator masks and from CLDR names with extension suffixes; Locale::from_parts over valid subtags with permuted / duplicated / upper-case variants and a parsed extension string; end states of mutation histories (all 1-2 | 1-3 operation sequences over the 33-operation alphabet (incl. clone / clone_from / mem::take) from two starts, and random histories of length 0-40). Oracle: to_string() == canonical rendering of what the getters expose (independent canonicaliser); to_string() passes the strict canonical recogniser; for parsed inputs canonicalize(s) == canon(reference model of s) == parse(s).to_string() and is never longer than s. Display is also driven into sinks that fail at once / half-way / one byte short: what arrived is a prefix of the rendering and to_string() is unchanged afterwards. Non-trivial = value has >= 2 variants or an extension, or was produced by from_parts / a mutation history. Enumerated inputs distinct by construction, the rest counted through a hash set of the case.";
 
 fn why_kind(w: &str) -> &str {
     w.split(|c| c == ':' || c == '(').next().unwrap_or(w).trim()
